@@ -150,3 +150,113 @@ func OnceDo(site int32, o *sync.Once, f func()) {
 	}()
 	o.Do(f)
 }
+
+// ---- sync.Cond ----
+//
+// The real condition variable's notify list is not used inside a simulation: waiters are kept
+// by the simulator (FIFO, as the runtime does), Wait releases and re-acquires c.L through the
+// lock wrappers, Signal/Broadcast hand their vector clock to the waiters they wake. Spurious
+// wake-ups are not generated; a Signal without a waiter is lost, as in Go.
+
+type condWaiter struct {
+	t         *Task
+	signalled bool
+	vc        []uint32
+}
+
+func lockerUnlock(site int32, l sync.Locker) {
+	switch m := l.(type) {
+	case *sync.Mutex:
+		MutexUnlock(site, m)
+	case *sync.RWMutex:
+		RWUnlock(site, m)
+	default:
+		l.Unlock()
+	}
+}
+
+func lockerLock(site int32, l sync.Locker) {
+	switch m := l.(type) {
+	case *sync.Mutex:
+		MutexLock(site, m)
+	case *sync.RWMutex:
+		RWLock(site, m)
+	default:
+		Unsupported("sync.Cond with a Locker that is neither *sync.Mutex nor *sync.RWMutex")
+		l.Lock()
+	}
+}
+
+func CondWait(site int32, c *sync.Cond) {
+	s := cur
+	if s == nil {
+		c.Wait()
+		return
+	}
+	t := s.caller()
+	w := &condWaiter{t: t}
+	if s.conds == nil {
+		s.conds = map[*sync.Cond][]*condWaiter{}
+	}
+	s.conds[c] = append(s.conds[c], w)
+	lockerUnlock(site, c.L)
+	s.park(gate{kind: gWait, site: site, cond: func() bool { return w.signalled }})
+	if s.cfg.HB && w.vc != nil {
+		t.vc = vcJoin(t.vc, w.vc)
+	}
+	lockerLock(site, c.L)
+}
+
+func (s *Sim) condWake(c *sync.Cond, all bool) {
+	t := s.caller()
+	ws := s.conds[c]
+	n := 0
+	for _, w := range ws {
+		if w.signalled {
+			continue
+		}
+		w.signalled = true
+		if s.cfg.HB && t != nil {
+			w.vc = vcCopy(t.vc)
+		}
+		n++
+		if !all {
+			break
+		}
+	}
+	// drop woken waiters
+	keep := ws[:0]
+	for _, w := range ws {
+		if !w.signalled {
+			keep = append(keep, w)
+		}
+	}
+	s.conds[c] = keep
+	if n > 0 && s.cfg.HB && t != nil {
+		t.vc = vcTick(t.vc, t.ID)
+	}
+}
+
+func CondSignal(site int32, c *sync.Cond) {
+	s := cur
+	if s == nil {
+		c.Signal()
+		return
+	}
+	if s.tearing {
+		return
+	}
+	s.condWake(c, false)
+}
+
+func CondBroadcast(site int32, c *sync.Cond) {
+	s := cur
+	if s == nil {
+		c.Broadcast()
+		return
+	}
+	if s.tearing {
+		return
+	}
+	s.condWake(c, true)
+}
